@@ -393,8 +393,31 @@ def run_retype(prog, ctx=None):
         PK = Analysis.PK
         verdict = {}
 
+        def zeroes_used(g, _memo={}):
+            """file-local helper that ends with `B->_used = 0` for its buffer parameter on every path to its return"""
+            if g.key() in _memo:
+                return _memo[g.key()]
+            _memo[g.key()] = False
+            zb = set()
+            for b2, i2, n2 in g.walk_all():
+                if n2.get("k") == "bin" and n2.get("op") == "=" and cval(n2["b"]) == 0:
+                    l2 = strip(n2["a"], lvalue_to_rvalue=False)
+                    if l2.get("k") == "mem" and l2.get("f") == "_used" and root_of(l2) in {p["id"] for p in g.params}:
+                        zb.add(b2.id)
+            if zb:
+                ent = [bid for bid, bb in g.blocks.items() if not bb.preds]
+                start = max(ent) if ent else max(g.blocks)
+                reach = {start} | set(g.reachable_from(start, avoid=zb))
+                rets = [b2.id for b2, i2, e2 in g.elements() if e2.get("k") == "ret"] or [bid for bid, bb in g.blocks.items() if not any(s is not None for s in bb.succ)]
+                _memo[g.key()] = not any(r in reach and r not in zb for r in rets)
+            return _memo[g.key()]
+
         def hook(an, b, i, el, st):
             facts = set(st.get(PK) or ())
+            if el.get("k") == "call" and el.get("fn"):
+                for g in prog.resolve_call(f, el):
+                    if g.static and g.file == f.file and not g.nocfg and zeroes_used(g):
+                        facts.add("zeroed")
             for n in walk_own(el):
                 if n.get("k") == "bin" and n.get("op") == "=":
                     l = strip(n["a"], lvalue_to_rvalue=False)
